@@ -386,7 +386,7 @@ func (i *insertExecutor) parsePkValuesFromStatement(insertStmt *ast.InsertStmt, 
 					for i := range row {
 						r := row[i]
 						rStr, ok := r.(string)
-						if i < pkIndex && ok && !strings.EqualFold(rStr, sqlPlaceholder) {
+						if i < pkIndex && !(ok && strings.EqualFold(rStr, sqlPlaceholder)) {
 							currentRowNotPlaceholderNumBeforePkIndex++
 						}
 					}
@@ -395,9 +395,7 @@ func (i *insertExecutor) parsePkValuesFromStatement(insertStmt *ast.InsertStmt, 
 				} else {
 					pkValues = append(pkValues, pkValue)
 				}
-				if _, ok := pkValuesMap[pkKey]; !ok {
-					pkValuesMap[pkKey] = pkValues
-				}
+				pkValuesMap[pkKey] = pkValues
 			}
 		}
 	} else {
